@@ -333,7 +333,7 @@ def run(ctx):
                                    "of forms before a read error would be lost / reordered" % (f.name, c, why), where_of(f, t))
         ctx.floor("C17-incremental", 1)
         if n_inc < 1:
-            ctx.report("C17-incremental", "floor", "no consumer of the form reader found outside the parser module", where_of(ev))
+            ctx.undecided("C17-incremental", "floor", "no consumer of the form reader found outside the parser module", where_of(ev))
 
 
     ctx.guarded("C17-stop-at-first", d_flow, _old_flow)
